@@ -94,6 +94,7 @@ type bufRun struct {
 	audOK     bool // the auditor read every value
 	pos       map[Val]int
 	single    bool // one producer only
+	huge      bool // one producer puts a batch of a few thousand values (forced-trim modes without an auditor)
 }
 
 func asVal(x interface{}) (Val, bool) {
@@ -125,6 +126,7 @@ func refDefaultCleaner(size int, offsets []int) int {
 func newBufRun(mode bufMode) *bufRun {
 	r := &bufRun{mode: mode, all: map[Val]*bufPut{}, pos: map[Val]int{}}
 	r.cool = drawCooldown()
+	r.huge = mode.forcedTrim && simrt.Chance(1, 15)
 	r.unit = time.Microsecond
 	if r.cool >= time.Millisecond {
 		r.unit = r.cool / 8
@@ -193,12 +195,21 @@ func (r *bufRun) producers(maxProd int) {
 		reuse   bool // the producer reuses one argument slice for all its calls and scribbles over it after each Put
 	}
 	plans := make([]plan, nProd)
+	hugeAt := -1
+	if r.huge {
+		hugeAt = simrt.Draw(nProd)
+	}
 	for p := range plans {
 		plans[p].reuse = simrt.Chance(1, 4)
 		for k := simrt.DrawRange(1, 4*simrt.Scale()); k > 0; k-- {
 			n := simrt.DrawRange(0, 3)
 			if simrt.Chance(1, 10) {
 				n = simrt.DrawRange(4, 40) // an occasional large batch
+			}
+			if p == hugeAt && k == 1 {
+				// one very large batch: sizes around internal thresholds nobody thought of testing
+				n = []int{1030, 1300, 4200, 5200}[simrt.Draw(4)] + simrt.Draw(50)
+				simrt.Probe("huge_batch")
 			}
 			plans[p].batches = append(plans[p].batches, n)
 			plans[p].pauses = append(plans[p].pauses, drawPause())
